@@ -1,6 +1,55 @@
-import BR.Model.Disk
+import BR.Lemmas.DiskProxy
+import BR.Bridge.Disk
+/-!
+# C18 — blob size limits are enforced on every ingress
+
+Disk layer (M4): the `max_blob_size` guard of `Put`, the `max_proxy_blob_size` guards of `get` and
+`Contains`.  The handler-level guards (HTTP PUT, ByteStream.Write, SpliceBlob, GetCapabilities) and
+the size each path hands to `Put` are Bridge facts / server correspondence (M10, M11).
+-/
 namespace BR.Props.C18
-open BR.Disk
-theorem placeholder : emptyZstdBlob.length = 9 := by decide
-#print axioms placeholder
+open BR.Disk BR.Lru BR.CasBlob
+
+/-- **above the limit: client error, nothing stored, nothing evicted** -/
+theorem put_rejects_above_limit (C : Codec) (H : Bytes → String) (d : Disk) (kind : Kind) (hash : String)
+    (size : Int) (s : Stream) (rnd : String) (hbig : size > d.cfg.maxBlobSize) :
+    put C H d kind hash size s rnd = (d, .e400) :=
+  put_over_limit C H d kind hash size s rnd (Or.inl hbig)
+
+/-- **an acknowledged item never exceeds the limit**, and the limit itself is not refused by the guard -/
+theorem acked_within_limit (C : Codec) (H : Bytes → String) (d : Disk) (hcs : 0 < d.cfg.chunkSize) (kind : Kind)
+    (hash : String) (size : Int) (s : Stream) (rnd : String) (hok : (put C H d kind hash size s rnd).2 = .ok) :
+    size ≤ d.cfg.maxBlobSize :=
+  (BR.Disk.put_ack_only_if C H d hcs kind hash size s rnd hok).2.1
+
+/-- nothing above `max_proxy_blob_size` is requested from, served from or cached from the back end -/
+theorem proxy_never_above_limit (C : Codec) (d : Disk) (l : Lru) (kind : Kind) (hash : String)
+    (size offset : Int) (zstd : Bool) (pg pg' : ProxyGet) (rnd : String) (s : Stream) (fs : Int) :
+    (size > d.cfg.maxProxyBlobSize →
+      get C d kind hash size offset zstd pg rnd = get C d kind hash size offset zstd pg' rnd) ∧
+    (fs > d.cfg.maxProxyBlobSize →
+      (fetchFromProxy C d l kind hash size offset zstd (.found s fs) rnd).2 = .miss) :=
+  ⟨get_ignores_proxy_above_limit C d kind hash size offset zstd pg pg' rnd,
+   (fetch_fault_no_hit C d l kind hash size offset zstd rnd s fs).2.2.1⟩
+
+/-- `Contains` reports a back-end object present only when its size is within `max_proxy_blob_size` -/
+theorem contains_respects_proxy_limit (d : Disk) (kind : Kind) (hash : String) (size : Int) (pc : Bool × Int)
+    (ht : (contains d kind hash size pc).2.1 = true) :
+    (kind = .cas ∧ size ≤ 0 ∧ hash = emptySha256) ∨
+    (∃ e, (Lru.get d.lru (lookupKey kind hash)).2 = some e ∧ isSizeMismatch size e.val.size = false) ∨
+    (d.cfg.hasProxy = true ∧ size ≤ d.cfg.maxProxyBlobSize ∧ pc.1 = true ∧ pc.2 ≤ d.cfg.maxProxyBlobSize ∧
+      isSizeMismatch size pc.2 = false) :=
+  contains_true_only_if d kind hash size pc ht
+
+/-! non-vacuity -/
+def hA : String := "aaaaaaaaaaaaaaaaaaaaaaaaaaaaaaaaaaaaaaaaaaaaaaaaaaaaaaaaaaaaaaaa"
+def cfgL : Cfg := { mode := .identity, maxBlobSize := 3, maxProxyBlobSize := 10, hasProxy := false }
+example : (put ⟨id, some, fun b => (b, true)⟩ (fun _ => hA) (init cfgL 40960 0) .cas hA 3 ⟨[1, 2, 3], false⟩ "r").2 = .ok ∧
+    (put ⟨id, some, fun b => (b, true)⟩ (fun _ => hA) (init cfgL 40960 0) .cas hA 4 ⟨[1, 2, 3, 4], false⟩ "r").2 = .e400 := by
+  decide +kernel
+
+#print axioms put_rejects_above_limit
+#print axioms acked_within_limit
+#print axioms proxy_never_above_limit
+#print axioms contains_respects_proxy_limit
 end BR.Props.C18
